@@ -120,11 +120,22 @@ class Case:
         self.leafsyn = {k: list(v) for k, v in desc["leafsyn"].items()} if desc.get("leafsyn") else None
         self.rootsyn = list(desc["rootsyn"]) if desc.get("rootsyn") else None
 
+    def _newick(self, T, features=None):
+        if not self.desc.get("unnamed"):
+            return T.newick(features)
+        # ancestors left unnamed (ete3 names them ''); solutions are then read back by pre-order position
+        saved = list(T.name)
+        T.name = [n if not T.children[i] else "" for i, n in enumerate(T.name)]
+        try:
+            return T.newick(features)
+        finally:
+            T.name = saved
+
     def build(self, costs):
         """costs: dict spe/dup/hgt/floss/sloss -> value.  Returns the superrec2 input."""
         d = {
-            "object_tree": self.O.newick({int(k): {"color": v} for k, v in (self.desc.get("ocolors") or {}).items()}),
-            "species_tree": self.S.newick(),
+            "object_tree": self._newick(self.O, {int(k): {"color": v} for k, v in (self.desc.get("ocolors") or {}).items()}),
+            "species_tree": self._newick(self.S),
             "leaf_object_species": self.leafmap,
             "costs": costs_dict(costs),
         }
@@ -139,6 +150,12 @@ class Case:
     def mapping_of(self, out):
         """superrec2 output -> oracle mapping dict (object index -> species index), or error str."""
         m = {}
+        if self.desc.get("unnamed"):
+            oi = {id(n): i for i, n in enumerate(out.input.object_tree.traverse("preorder"))}
+            si = {id(n): i for i, n in enumerate(out.input.species_lca.tree.traverse("preorder"))}
+            for k, v in out.object_species.items():
+                m[oi[id(k)]] = si[id(v)]
+            return m
         for k, v in out.object_species.items():
             m[self.O.by_name[k.name]] = self.S.by_name[v.name]
         return m
